@@ -13,6 +13,31 @@ import (
 	"golang.org/x/tools/go/cfg"
 )
 
+// meetInterest holds the linear parts of the goals of the function being analysed: the meet keeps what
+// both sides entail about them even when neither side stores such a fact (set by run()).
+var meetInterest []lin
+
+func (bf *boundsFunc) interest() []lin {
+	seen := map[string]bool{}
+	var out []lin
+	add := func(l lin) {
+		p := lin{t: l.t}
+		if k := p.key(); len(p.t) > 0 && !seen[k] {
+			seen[k] = true
+			out = append(out, p)
+		}
+	}
+	for _, st := range bf.sites() {
+		for _, g := range st.Goals {
+			add(g)
+		}
+	}
+	for _, p := range bf.pre {
+		add(p)
+	}
+	return out
+}
+
 // factBasis returns the explicit facts plus len(x) ≥ 0 for every len term in sight.
 func (s *bstate) factBasis(extra lin) []lin {
 	var facts []lin
@@ -199,6 +224,49 @@ func meet(a, b *bstate) *bstate {
 				}
 				r.le[k] = g
 			}
+		}
+	}
+	// goal-directed: linear parts the function's sites ask about, entailed (not stored) on both sides
+	for _, L := range meetInterest {
+		k := lin{t: L.t}.key()
+		if _, done := r.le[k]; done {
+			continue
+		}
+		mentioned := func(s *bstate) bool {
+			for t := range L.t {
+				if strings.HasPrefix(t, "len(") {
+					continue
+				}
+				found := false
+				for _, f := range s.le {
+					if _, ok := f.t[t]; ok {
+						found = true
+						break
+					}
+				}
+				if !found {
+					return false
+				}
+			}
+			return true
+		}
+		if !mentioned(a) || !mentioned(b) {
+			continue
+		}
+		if bases[0] == nil {
+			bases[0] = a.basis(lin{})
+		}
+		if bases[1] == nil {
+			bases[1] = b.basis(lin{})
+		}
+		ca, oka, _ := bases[0].bound(L, 2)
+		cb, okb, _ := bases[1].bound(L, 2)
+		if oka && okb {
+			g := lin{t: L.t, c: ca}
+			if cb < ca {
+				g.c = cb
+			}
+			r.le[k] = g
 		}
 	}
 	for k, fa := range a.ne {
@@ -467,14 +535,26 @@ func (bf *boundsFunc) disjunction(s *bstate, x *ast.BinaryExpr, truth bool) {
 // returned true, yields the facts of <expr> (over the parameters) instantiated at the call.
 func (bf *boundsFunc) predicateFacts(s *bstate, c *ast.CallExpr, fn *types.Func) {
 	fi := bf.ba.funcs[fn]
-	if fi == nil || len(fi.Decl.Body.List) != 1 {
+	if fi == nil {
+		return
+	}
+	cf := &boundsFunc{ba: bf.ba, fi: fi, info: fi.Pkg.TypesInfo}
+	if len(fi.Decl.Body.List) != 1 {
+		// general form: facts at every site returning true
+		if fi.Obj == bf.fi.Obj {
+			return
+		}
+		for _, f := range bf.ba.trueReturnFacts(fi) {
+			if inst, ok := bf.instantiate(cf, f, c); ok {
+				s.addLE(inst)
+			}
+		}
 		return
 	}
 	ret, ok := fi.Decl.Body.List[0].(*ast.ReturnStmt)
 	if !ok || len(ret.Results) != 1 {
 		return
 	}
-	cf := &boundsFunc{ba: bf.ba, fi: fi, info: fi.Pkg.TypesInfo}
 	st := newState()
 	for _, m := range litsOf(ret.Results[0], nil, true) {
 		cf.factsOfLit(st, m)
